@@ -29,7 +29,9 @@ Items == <<
   I("\n", "nl"), I("{x : >4}", "fld"), I("{x!r }", "fld"), I("{ x }", "fld"), I("{x:{y:{z}}}", "fld"),        \* 46-50
   I("{x!sr}", "fld"), I("{x!ra}", "fld"), I("{x!z}", "fld"), I("{x!}", "fld"), I("{x!r!s}", "fld"),            \* 51-55 invalid conversions
   I("{x", "fld"), I("{}", "fld"), I("{x!r:>{w}", "fld"), I("}", "lit"), I("{x:{w}", "fld"),                   \* 56-60 malformed
-  I("\"\"\"", "dq"), I("\\\n", "cont"), I("'''", "sq"), I("\\t", "esc"), I("\\x41\\u00e9", "esc")                   \* 61-65
+  I("\"\"\"", "dq"), I("\\\n", "cont"), I("'''", "sq"), I("\\t", "esc"), I("\\x41\\u00e9", "esc"),                  \* 61-65
+  I("{x! r}", "fld"), I("\\x4", "esc"), I("\\N{NOPE}", "esc"), I("{!r}", "fld"), I("{:>4}", "fld"),          \* 66-70 invalid unless raw
+  I("{x!r x}", "fld"), I("\\u12", "esc"), I("{x!R}", "fld"), I("\\400", "esc"), I("{x;y}", "fld")             \* 71-75
 >>
 Prefixes == <<"f", "F", "rf", "fr", "Rf", "fR", "RF", "Fr">>
 Quotes == <<"'", "\"", "'''", "\"\"\"">>
